@@ -38,7 +38,9 @@ func init() {
 		if tier == "thorough" {
 			reps = 120
 		}
-		unp := func(spec *Sx, d []byte) { emit(L(A("fld"), spec, L(op("unpack", X(d)), op("get"), op("setbytes", X(d))))) }
+		unp := func(spec *Sx, d []byte) {
+			emit(L(A("fld"), spec, L(op("unpack", X(d)), op("get"), op("setbytes", X(d)))))
+		}
 		for rep := 0; rep < reps; rep++ {
 			bers := berAdversarial(r)
 			// a. primitive fields under a BerTLV prefix, with and without a maximum
